@@ -106,16 +106,19 @@ func tokenizeStream(src io.Reader, normalize bool, dict *dictionary, updateDict 
 		// Fill up the buffer with bytes to extract runes from
 		// idx is offset to hold any bytes left over from previous reads
 		n, err := io.ReadFull(src, rbuf[idx:])
+		// end is the number of valid bytes in the buffer. Whatever lies beyond it
+		// is left over from earlier reads and must not take part in decoding.
+		end := idx + n
 		if isEOF(err) {
 			// There are no more bytes to read, so we must now consume all bytes in the
 			// buffer.
-			tgt = idx + n
+			tgt = end
 		} else if err != nil {
 			return nil, err
 		}
 
 		for idx = 0; idx < tgt; {
-			r, n := utf8.DecodeRune(rbuf[idx:])
+			r, n := utf8.DecodeRune(rbuf[idx:end])
 			idx += n
 
 			if r == '\n' {
